@@ -82,7 +82,10 @@ def plan(tier, seed):
         shards.append(("unknown", n1, tier))
     for nl in ("\n", "\r\n"):
         for lo in range(0, 28, 4):
-            shards.append(("big", nl, lo))
+            shards.append(("big", nl, lo, 1))
+    for nl in ("\n",) if tier == "quick" else ("\n", "\r\n"):
+        for lo in range(0, 28, 2):
+            shards.append(("big", nl, lo, 8))  # about 1.13 * 10^6 characters: beyond 2^20
     return dict(shards=shards, bounds=dict(permuted_sections=nperm, newline=["LF", "CRLF"], entry_points=list(VIAS), unknown_names=list(UNKNOWN_NAMES), unknown_sections_max=2), budget_s=600)
 
 
@@ -105,17 +108,17 @@ def warn_count(text):
     return out[2] if out[0] == "ok" else None
 
 
-def big_text(nl, pad):
+def big_text(nl, pad, scale=1):
     """A chart of about 1.4 * 10^5 characters: a long track, a long unknown section and `pad` extra
     characters in the FIRST line of the first unknown section, so that sweeping pad over 0..27 moves every
     later line break across every possible block boundary of any chunked reader."""
     notes = []
-    for i in range(6000):
+    for i in range(6000 * scale):
         notes.append("%d = N %d %d" % (3 * i, i % 5, i % 4))
         if i % 50 == 0:
             notes.append("%d = S 2 7" % (3 * i))
     filler = ["x" * pad + "filler"] + ["line %d of an unknown section" % i for i in range(300)]
-    ev = ['%d = E "lyric w%d"' % (5 * i, i) for i in range(1500)]
+    ev = ['%d = E "lyric w%d"' % (5 * i, i) for i in range(1500 * scale)]
     secs = [("Pad", filler[:1]), SONG, ("Foo", filler[1:100]), SYNC, ("Events", ev), ("ExpertSingle", notes), ("Bar", filler[1:300]), TRACK_B, ("Baz", filler[1:200])]
     return render(secs, nl)
 
@@ -123,9 +126,9 @@ def big_text(nl, pad):
 def run_shard(shard, ctx):
     kind = shard[0]
     if kind == "big":
-        _, nl, lo = shard
-        for pad in range(lo, lo + 4):
-            text = big_text(nl, pad)
+        _, nl, lo, scale = shard
+        for pad in range(lo, lo + (4 if scale == 1 else 2)):
+            text = big_text(nl, pad, scale)
             got = check(ctx, text, "file", "chart of %d characters, newline %r, padding %d" % (len(text), nl, pad), sample=lambda: dict(characters=len(text), newline=nl, pad=pad))
             # each parser received exactly its body lines: no line is reported as unparsable in this chart
             # (4 warning records: the four unknown sections)
@@ -177,6 +180,15 @@ def run_shard(shard, ctx):
                 if not secs:
                     continue
                 got = check(ctx, render(secs), "file", "required sections present: %r" % [s[0] for s in secs if s in req], sample=dict(sections=[s[0] for s in secs]))
+        # a missing required section is reported as ValueError whatever is wrong with the sections that ARE there
+        bad_song = [("Song", []), ("Song", ['Name = "x"']), ("Song", ["Resolution = 0"]), ("Song", ["garbage"])]
+        bad_sync = [("SyncTrack", []), ("SyncTrack", ["0 = TS 4"]), ("SyncTrack", ["5 = B 1", "0 = TS 4"])]
+        for m in range(7):
+            for sg in [SONG] + bad_song:
+                for sy in [SYNC] + bad_sync:
+                    secs = [s_ for i, s_ in enumerate([sg, sy, EVENTS]) if m >> i & 1] + [TRACK_A]
+                    for order in (secs, secs[::-1]):
+                        check(ctx, render(order), "file", "required sections present: %r (some of them defective)" % [s_[0] for s_ in secs[:-1]], sample=dict(sections=[s_[0] for s_ in order]))
         # a look-alike unknown section never stands in for a missing required one
         for m in range(7):
             for fake in ("Song]", "SyncTrack]]", "Events][old", "Song2", " Events"):
@@ -221,7 +233,12 @@ k = %d
 import logging
 class H(logging.Handler):
     n = 0
-    def emit(self, r): H.n += 1
+    def emit(self, r):
+        try:
+            r.getMessage()   # a record that cannot be rendered is not a report
+        except Exception:
+            return
+        H.n += 1
 h = H(level=logging.WARNING); logging.getLogger().handlers[:] = [h]
 from chartparse.chart import Chart
 logging.getLogger().handlers[:] = [h]
